@@ -30,8 +30,14 @@ decoders for requests and for produce / metadata responses, and the property-lev
              they answer), LDone (what the caller was given), LEnd; judged by the KafkaCorrAbs machine inside
              KafkaWireTrace: a value only from a reply encoded in answer to that very request (per wire request
              instance, so that a re-used id is judged correctly), nothing after a timeout, nothing lost.
-             KafkaCorr.tla is the code-shaped model of that lifecycle (tag pool / tag map / timeout / late reply)
-             with the same machine in lock-step.
+             KafkaCorr.tla is the code-shaped model of that lifecycle (tag pool / tag map / timeout / late reply /
+             the "written" mark checked by _ProcessTaggedReply) with the same machine in lock-step.
+             Class late-burst: bursts of 3-48 requests in flight, all but one answered, a bigger burst while that
+             one is outstanding, then everything answered.  Class late-buffered: the same oracle on a connection
+             with a send buffer (StreamConn): several requests handed in at one instant whose combined size exceeds
+             the free space, the broker answers each request the moment it has received it completely (also while
+             the rest of the client's write is blocked); the frame reaches the oracle as LWire when the broker has
+             it (found by content, judged by ReqCheck).
       stream the same stack over a connection with a send buffer (StreamConn: room / low-water mark / drain;
              partial writes, a writer blocked mid-frame): large (> 1400 byte) and small produce requests and
              metadata requests issued from concurrent greenlets before the write blocks, while it is blocked, and
@@ -73,7 +79,9 @@ ASSUMPTIONS = [
   'late-reply mode: the broker answers every request it received at most once, at any time and in any order (Kafka '
   'has no cancel); a duplicate answer is only generated while no newer request exists (afterwards no client could '
   'tell it from the answer to the new holder of the id); re-using an id is not judged here (C11), only which '
-  'request a reply is handed to; errors other than a value (timeouts) are not constrained by C15',
+  'request a reply is handed to; errors other than a value are not constrained by C15, except that a request is '
+  'not told TimeoutError at a virtual instant later than the one at which its reply reached the client (every '
+  'reply is readable, and the loop is run to quiescence, at the instant it is put on the connection)',
   'stream mode: the connection accepts bytes in order (TCP); a send() takes as many bytes as the send buffer has '
   'room for and blocks at 0; the blocked writer is woken by a loop callback once the free space reaches the '
   'low-water mark; supplied produce requests are pairwise distinct in (topic, payloads); whether / when a supplied '
@@ -87,7 +95,10 @@ RULE = {'C15': 'records generated from VERIF_SEED: topic (ASCII, empty, non-ASCI
                'routing runs with 2-6 requests in flight and permuted / missing / unknown replies; late-reply scenarios '
                '(3-9 produce / metadata requests with deadlines of 50-1000 ms or none on one live connection, replies '
                'held past the deadline and released after further requests, permuted, batched, duplicated, unknown '
-               'ids, reply and deadline at the same instant with every small interleaving); stream scenarios (send buffer '
+               'ids, reply and deadline at the same instant with every small interleaving; bursts of 3/12/16/17/25/40/48 '
+               'requests in flight, all but one answered, then a bigger burst, then all answered; 2-6 small requests '
+               'handed in at one instant into a send buffer of 100-450 bytes with a broker that answers at once); '
+               'stream scenarios (send buffer '
                'of 64-1000 bytes, low-water mark 1-300, 1250-1700 byte and small produce requests and metadata '
                'requests from concurrent greenlets around a write that blocks part-way, space freed in pieces of '
                '100-2000 bytes with 0-3 single callbacks between, resets mid-write; plus 12 (thorough 72) scenarios around '
@@ -557,6 +568,100 @@ def _stream_script(rng, i):
   return {'mode': 'stream', 'cls': 'stream', 'ops': ops, 'lowat': lowat, 'tag0': rng.choice([1, 1, 254, 65534])}
 
 
+LATE_BURSTS = [3, 12, 16, 17, 25, 40, 48]
+
+
+def _late_burst_script(rng, i):
+  """Bursts of concurrent requests on one connection (late-reply driver): a burst of n requests in flight, all
+  but one answered, then a bigger burst while that one is still outstanding, then everything is answered.
+  Small payloads: the traces stay compact."""
+  ops = []
+  st = {'n': 0}
+  topic = _name(rng, 'ascii') or [116]
+
+  def burst(n, T=0):
+    out = []
+    for _ in range(n):
+      st['n'] += 1
+      r = st['n']
+      ops.append(['req', r, 0, topic, rng.choice([0, 1, 7]), 1, [list(('r%d-' % r).encode())], T])
+      out.append(r)
+    return out
+
+  k = i % len(LATE_BURSTS)
+  sizes = [LATE_BURSTS[k]]
+  if sizes[0] <= 16 and rng.random() < 0.6:
+    sizes.append(rng.choice([x for x in LATE_BURSTS if x > sizes[0]][:2]))       # a chain: 3 -> 12 -> ...
+  sizes.append(sizes[-1] + rng.choice([1, 2, 8]) if sizes[-1] >= 40 else
+               rng.choice([x for x in LATE_BURSTS if x > sizes[-1]][:2]))
+  keep = []
+  for j, n in enumerate(sizes):
+    rs = burst(n)
+    ops.append(['run'])
+    if j == len(sizes) - 1:
+      break
+    left = rng.choice(rs[:3] + rs[-2:] + [rng.choice(rs)])
+    keep.append(left)
+    ops.append(['replyall', rng.choice(['fifo', 'fifo', 'rev', rng.randint(1, 1 << 20)]), list(keep),
+                rng.choice([0, 1, 5])])
+    if rng.random() < 0.3:
+      ops.append(['adv', rng.choice([10, 100])])
+  ops.append(['replyall', rng.choice(['fifo', 'fifo', rng.randint(1, 1 << 20)]), [], rng.choice([0, 1, 7])])
+  return {'mode': 'late', 'cls': 'late-burst', 'ops': ops, 'tag0': 1, 'chunk': 0}
+
+
+def _late_buffered_script(rng, i):
+  """Late-reply oracle on a connection with a send buffer: several small requests are handed in at the same
+  instant (they wait in the send queue together), their combined size exceeds the free space of the send
+  buffer, the broker answers every request as soon as it has received it completely - also while the rest of
+  the client's write is still blocked - and the peer then reads on in pieces."""
+  ops = []
+  st = {'n': 0}
+  topic = _name(rng, 'ascii') or [116]
+
+  def req(T=0, extra=None):
+    st['n'] += 1
+    r = st['n']
+    pay = list(('r%d-' % r).encode()) + _bytes(rng, rng.choice([0, 4, 30, 100]) if extra is None else extra)
+    ops.append(['req', r, 0, topic, rng.choice([0, 1, 7]), rng.choice([-1, 1, 2]), [pay], T])
+
+  for _ in range(rng.choice([0, 1, 2])):
+    req()
+  ops.append(['run'])
+  ops.append(['room', rng.choice([100, 150, 200, 300, 450])])
+  shape = i % 3
+  if shape == 0:            # a burst in one instant
+    for _ in range(rng.choice([2, 3, 4, 6])):
+      req(T=rng.choice([0, 0, 0, 500, 1000]))
+  elif shape == 1:          # queued behind a blocked big write
+    req(extra=rng.choice([500, 900]))
+    ops.append(['run'])
+    for _ in range(rng.choice([2, 3, 5])):
+      req(T=rng.choice([0, 0, 1000]))
+  else:                     # two instants
+    req()
+    req()
+    ops.append(['step', rng.choice([1, 2, 4])])
+    req(T=rng.choice([0, 500]))
+    req()
+  ops.append(['run'])
+  for _ in range(rng.choice([2, 3, 4])):
+    ops.append(['drain', rng.choice([50, 120, 200, 400])])
+    if rng.random() < 0.5:
+      ops.append(['step', rng.choice([1, 2, 3])])
+      if st['n'] < 12 and rng.random() < 0.5:
+        req()
+    ops.append(['run'])
+    if rng.random() < 0.3:
+      ops.append(['adv', rng.choice([10, 100])])
+  ops.append(['drain', None])
+  ops.append(['run'])
+  req()
+  ops.append(['run'])
+  return {'mode': 'late', 'cls': 'late-buffered', 'ops': ops, 'tag0': rng.choice([1, 1, 254]), 'chunk': rng.choice([0, 0, 3]),
+          'buffered': 1, 'auto': 1, 'auto_errors': [0, 0, 3, 0, 6], 'lowat': rng.choice([1, 1, 32])}
+
+
 STREAM_BODY_TARGETS = [4095, 4096, 16383, 16384, 65535, 65536, 65537, 66000, 81920]
 
 
@@ -680,6 +785,11 @@ def cases(prop, tier, seed):
   lrng = random.Random(7919 * int(seed) + 1515)
   for c in range(90 * (1 if tier == 'quick' else 10)):
     out.append(_late_script(lrng, c))
+  xrng = random.Random(4099 * int(seed) + 1518)
+  for c in range(14 if tier == 'quick' else 70):
+    out.append(_late_burst_script(xrng, c + int(seed)))
+  for c in range(30 if tier == 'quick' else 240):
+    out.append(_late_buffered_script(xrng, c))
   srng = random.Random(6151 * int(seed) + 1516)
   for c in range(60 * (1 if tier == 'quick' else 8)):
     out.append(_stream_script(srng, c))
@@ -1153,9 +1263,16 @@ def _run_late(script, loop):
 
   loop.settle()
   net = simnet.SimNet(loop).install()
+  buffered = bool(script.get('buffered'))
+  if buffered:
+    # a connection with a send buffer (see _stream_conn_class): writes can block part-way, a request reaches the
+    # broker when its last byte is accepted, possibly long after it was issued
+    import scales.scales_socket as ss
+    StreamConn = _stream_conn_class(simnet)
+    ss.gsocket = lambda family=None, type_=None, *a, **kw: StreamConn(net, family, type_)
   ev = []
   stats = {'timeouts': 0, 'values': 0, 'late_replies': 0, 'late_after_new_request': 0, 'dups': 0, 'unknown': 0,
-           'at_deadline': 0, 'skipped_ops': 0, 'id_reuse': 0}
+           'at_deadline': 0, 'skipped_ops': 0, 'id_reuse': 0, 'answered_while_write_blocked': 0}
 
   def ms():
     return int(round((loop.now() - EPOCH) * 1000))
@@ -1168,11 +1285,53 @@ def _run_late(script, loop):
 
     def on_frame(self, conn, frame):
       self.arrivals += 1
+      n = len(self.requests)
       peers.KafkaPeer.on_frame(self, conn, frame)
+      if buffered:
+        wired(self.requests[n], frame)
 
   peer = Broker(net)
   net.peer_factory = lambda c: peer
   chunk = script.get('chunk', 0)
+
+  def first_value(frame):
+    """The broker's reader: the value of the first message of a produce request (frame without size prefix)."""
+    try:
+      api, _ver, _corr, cl = struct.unpack('!hhih', frame[:10])
+      if api != 0:
+        return None
+      p = 10 + cl + 2 + 4 + 4
+      tl, = struct.unpack('!h', frame[p:p + 2])
+      p += 2 + tl + 4 + 4 + 4           # topic, partition count, partition, message set size
+      p += 8 + 4 + 4 + 1 + 1            # offset, message size, crc, magic, attributes
+      kl, = struct.unpack('!i', frame[p:p + 4])
+      p += 4 + max(kl, 0)
+      vl, = struct.unpack('!i', frame[p:p + 4])
+      return frame[p + 4:p + 4 + vl] if vl >= 0 and len(frame) >= p + 4 + vl else None
+    except struct.error:
+      return None
+
+  def wired(p, frame):
+    """Buffered mode: the broker has received a frame completely.  The harness finds the supplied request by the
+    (unique) first payload; the spec judges the frame against that request's inputs."""
+    v = first_value(frame)
+    r = 0
+    for rr, q in reqs.items():
+      if q['api'] == 0 and q['payloads'] and v == _b(q['payloads'][0]):
+        r = rr
+    q = reqs.get(r, {'topic': [], 'partition': 0, 'acks': 0, 'payloads': []})
+    full = struct.pack('!i', len(frame)) + frame
+    ev.append({'e': 'LWire', 'r': r, 'topic': q['topic'], 'partition': q['partition'], 'acks': q['acks'],
+               'payloads': q['payloads'], 'corr': p.tag, 'cid': cid_box[0], 'frame': list(bytearray(full)),
+               'braised': 'none', 'hraised': 'none', 't': ms()})
+    if r and q['pending'] is None:
+      q['pending'] = p
+      if script.get('auto'):
+        # the broker answers a request as soon as it has read it, also while later bytes of the same client
+        # write are still blocked
+        blocked = getattr(p.conn, 'room', None) == 0        # the buffer is full: whatever follows has to wait
+        if send_reply(r, script['auto_errors'][r % len(script['auto_errors'])]) and blocked:
+          stats['answered_while_write_blocked'] += 1
 
   def on_connect_start(conn):
     if chunk:
@@ -1199,10 +1358,14 @@ def _run_late(script, loop):
   while not isinstance(transport, KafkaTransportSink):
     transport = transport.next_sink
   cid = _client_id(transport)
+  cid_box = [cid]
   try:                                      # optional knob: where the tag pool starts handing out ids
-    transport._tag_pool._next = script.get('tag0', 1)
+    if script.get('tag0', 1) != 1:
+      transport._tag_pool._next = script['tag0']
   except AttributeError:
     pass
+  if buffered:
+    net.conns[0].lowat = script.get('lowat', 1)
 
   reqs = {}            # r -> dict(api, topic, partition, pending (peer's record of its frame), deadline, done)
   nreq = [0]
@@ -1240,12 +1403,21 @@ def _run_late(script, loop):
     stack.Push(terminal, r)
     e = {'e': 'LReq', 'r': r, 'api': api, 'topic': topic, 'partition': partition, 'acks': acks, 'payloads': payloads,
          'T': T, 'corr': -1, 'cid': cid, 'frame': [], 'sent': 0, 'braised': 'none', 'hraised': 'none', 't': ms()}
-    reqs[r] = {'api': api, 'topic': topic, 'partition': partition, 'pending': None, 'deadline': deadline, 'done': [],
-               'answered_at_nreq': None}
+    reqs[r] = {'api': api, 'topic': topic, 'partition': partition, 'acks': acks, 'payloads': payloads, 'pending': None,
+               'deadline': deadline, 'done': [], 'answered_at_nreq': None}
     nreq[0] += 1
     ev.append(e)
     w0, p0 = len(written), len(peer.requests)
     box = {}
+    if buffered:
+      # the caller greenlet runs when the loop does; the frame is recorded when the broker has it (LWire)
+      def bcall():
+        try:
+          top.AsyncProcessRequest(stack, msg, None, {})
+        except Exception as ex:
+          e['hraised'] = type(ex).__name__
+      gevent.spawn(bcall)
+      return
 
     def call():
       try:
@@ -1315,6 +1487,27 @@ def _run_late(script, loop):
       loop.run_for(op[1] / 1000.0)
     elif k == 'run':
       loop.run_until_idle()
+    elif k == 'room':
+      net.conns[0].set_room(op[1])
+    elif k == 'drain':
+      if not net.conns[0].closed:
+        net.conns[0].drain(op[1])
+    elif k == 'step':
+      for _ in range(op[1]):
+        loop.step_callback()
+    elif k == 'replyall':                   # everything unanswered: oldest first / newest first / scripted order
+      un = [r for r in sorted(reqs) if reqs[r]['pending'] is not None and not reqs[r]['pending'].answered]
+      if op[1] == 'rev':
+        un.reverse()
+      elif op[1] != 'fifo':
+        random.Random(op[1]).shuffle(un)
+      for i, r in enumerate(un):
+        if r in op[2]:
+          continue                          # these stay unanswered
+        send_reply(r, 0)
+        if op[3] and (i + 1) % op[3] == 0:
+          loop.run_until_idle()
+      loop.run_until_idle()
     elif k == 'reply':
       send_reply(op[1], op[2])
     elif k == 'dup':
@@ -1349,6 +1542,8 @@ def _run_late(script, loop):
           loop.step_callback()
         loop.step_timer()
       loop.run_until_idle()
+  if buffered and not net.conns[0].closed:
+    net.conns[0].drain(None)
   loop.run_until_idle()
   # let every deadline pass, then quiesce
   loop.run_for(5.0)
@@ -1628,7 +1823,7 @@ def extra_coverage(prop, tier, traces):
     if m.get('mode') == 'late':
       late['scenarios'] = late.get('scenarios', 0) + 1
       for k in ('requests', 'timeouts', 'values', 'late_replies', 'late_after_new_request', 'dups', 'unknown',
-                'at_deadline', 'skipped_ops', 'other_errors', 'id_reuse'):
+                'at_deadline', 'skipped_ops', 'other_errors', 'id_reuse', 'answered_while_write_blocked'):
         late[k] = late.get(k, 0) + int(m.get(k, 0))
   stream = {}
   for t in traces:
